@@ -362,8 +362,10 @@ func (p *prog) nativeVal(kind spec.Kind, fixed bool) model.Val {
 
 func c05Add(p *prog, l *model.Node, vals []model.Val) {
 	args := make([]any, len(vals))
+	wasNative := make([]bool, len(vals))
 	for i, v := range vals {
 		args[i] = argFor(p.h, v)
+		wasNative[i] = v.Ref != nil && v.Ref.Real == nil
 	}
 	var ret at.List
 	p.step("Add", fmt.Sprintf("%s.Add(%s)", l.Name(), showVals(vals)), false, func() {
@@ -371,6 +373,22 @@ func c05Add(p *prog, l *model.Node, vals []model.Val) {
 		ret = l.List().Add(args...)
 	})
 	p.expect(p.failed || any(ret) == l.Real, "Add-return", "the receiver", "another value")
+	if !p.failed && p.r != nil && len(vals) > 0 && p.r.Chance(1, 5) {
+		// the very same Go slice is spread into a second call (a caller may keep its argument slice): the same values are
+		// appended once more; native maps / slices among them are converted afresh
+		vals2 := make([]model.Val, len(vals))
+		for i, v := range vals {
+			vals2[i] = v
+			if wasNative[i] {
+				vals2[i] = p.h.ModelFromSpec(v.Ref.ToSpec())
+			}
+		}
+		p.c.Count("argument_slices_reused")
+		p.step("Add", fmt.Sprintf("%s.Add(the same argument slice again: %s)", l.Name(), showVals(vals2)), false, func() {
+			l.E = append(l.E, vals2...)
+			l.List().Add(args...)
+		})
+	}
 }
 
 func c05Insert(p *prog, l *model.Node, idx int, v model.Val) {
